@@ -3,6 +3,7 @@
 package cert
 
 import (
+	"path/filepath"
 	"net/http/httptest"
 	"net/http"
 	"bytes"
@@ -361,7 +362,7 @@ type stopWatch struct{}
 
 func TestVerifC11Watch(t *testing.T) {
 	L := ev.Begin("C11", "c11-watch", "model_checking",
-		"every history (length <= N) of certificate-source answers {good set A, good set B, same as last, load error, broken PEM, good + one broken file, key without cert; and through the real HTTP loader: good set A, 503 on the list URL, 404 HTML page on the list URL, list fine but a file answers 500} through the real cert.watch loop (time.Sleep redirected to a virtual clock, loader owned by the harness), for refresh in {3s, 100ms (clamped to 1s)}; state = last accepted answer; invariants: published sets are exactly the good changed answers in order, a bad answer never publishes, between two loader calls without a publish there is a sleep of >= 1s virtual time (no spinning). non-trivial = history containing a bad answer")
+		"every history (length <= N) of certificate-source answers {good set A, good set B, same as last, load error, broken PEM, good + one broken file, key without cert; and through the real HTTP loader: good set A, 503 on the list URL, 404 HTML page on the list URL, list fine but a file answers 500; and through the real path loader on a directory whose a.pem is a constant symbolic link and whose content is switched by re-pointing a directory link: good set A, good set B} through the real cert.watch loop (time.Sleep redirected to a virtual clock, loader owned by the harness), for refresh in {3s, 100ms (clamped to 1s)}; state = last accepted answer; invariants: published sets are exactly the good changed answers in order, a bad answer never publishes, between two loader calls without a publish there is a sleep of >= 1s virtual time (no spinning). non-trivial = history containing a bad answer")
 	a := c11Make("set-a", "foo.com")
 	b := c11Make("set-b", "foo.com")
 	broken := []byte("-----BEGIN CERTIFICATE-----\nZm9v\n-----END CERTIFICATE-----\n")
@@ -378,6 +379,28 @@ func TestVerifC11Watch(t *testing.T) {
 		{"http:503-on-the-list-url", nil, nil, false},
 		{"http:404-html-page-on-the-list-url", nil, nil, false},
 		{"http:list-ok-but-file-500", nil, nil, false},
+		// through the real path loader (cert.loadPath) on a directory laid out the way a mounted secret is: a.pem is a
+		// symbolic link that never changes, what it leads to is switched by re-pointing a directory link
+		{"path:good-A", nil, nil, true},
+		{"path:good-B-after-the-link-switch", nil, nil, true},
+	}
+	proot, _ := os.MkdirTemp("", "c11path")
+	defer os.RemoveAll(proot)
+	for v, pem := range map[string][]byte{"v1": a.pem, "v2": b.pem} {
+		os.MkdirAll(filepath.Join(proot, v), 0o700)
+		os.WriteFile(filepath.Join(proot, v, "a.pem"), pem, 0o600)
+	}
+	os.MkdirAll(filepath.Join(proot, "certs"), 0o700)
+	os.Symlink(filepath.Join("..", "data", "a.pem"), filepath.Join(proot, "certs", "a.pem"))
+	pointTo := func(v string) {
+		tmp := filepath.Join(proot, "data.tmp")
+		os.Remove(tmp)
+		if err := os.Symlink(v, tmp); err != nil {
+			panic("VERIF-INFRA: " + err.Error())
+		}
+		if err := os.Rename(tmp, filepath.Join(proot, "data")); err != nil {
+			panic("VERIF-INFRA: " + err.Error())
+		}
 	}
 	var httpMode string
 	hsrv := httptest.NewServer(http.HandlerFunc(func(w http.ResponseWriter, r *http.Request) {
@@ -454,6 +477,14 @@ func TestVerifC11Watch(t *testing.T) {
 				if len(events) > 50*len(h)+50 {
 					panic(stopWatch{})
 				}
+				if strings.HasPrefix(ans.name, "path:") {
+					if ans.name == "path:good-A" {
+						pointTo("v1")
+					} else {
+						pointTo("v2")
+					}
+					return loadPath(filepath.Join(proot, "certs"))
+				}
 				if strings.HasPrefix(ans.name, "http:") {
 					httpMode = ans.name
 					return loadURL(hsrv.URL + "/certs/list")
@@ -492,9 +523,9 @@ func TestVerifC11Watch(t *testing.T) {
 				}
 				last = eff
 				switch an.name {
-				case "good-A", "http:good-A":
+				case "good-A", "http:good-A", "path:good-A":
 					wantPub = append(wantPub, "set-a")
-				case "good-B":
+				case "good-B", "path:good-B-after-the-link-switch":
 					wantPub = append(wantPub, "set-b")
 				case "empty":
 					wantPub = append(wantPub, "empty")
@@ -690,6 +721,109 @@ func TestVerifC11Sched(t *testing.T) {
 		}
 		L.NontrivialKey(name)
 		L.ForceSample(map[string]interface{}{"scenario": name, "executions": st.Executions, "preemption_bound_completed": st.BoundCompleted, "unbounded": st.Unbounded, "max_points": st.MaxPoints})
+	}
+	L.End(true)
+}
+
+// The path source as fabio runs it (PathSource.Certificates: its own loader inside its own watch loop), over histories
+// of a directory laid out the way a mounted secret is: a.pem is a symbolic link that never changes, the set it leads
+// to is switched by re-pointing a directory link. "A newly published set takes effect without restart."
+func TestVerifC11WatchPath(t *testing.T) {
+	L := ev.Begin("C11", "c11-pathsource", "model_checking",
+		"every history of length 1..3 over the directory states {set A, set B, set C} (switched by re-pointing a directory link; the .pem entry itself is a constant symbolic link) and the same histories with the files rewritten in place, through the real PathSource.Certificates() (refresh 1 s, sleeps run 100x faster); after every change the next set received from the source must be the one the directory now holds (causal wait of up to 2000 refresh intervals). non-trivial = histories with a change")
+	sets := []c11Cert{c11Make("set-a", "foo.com"), c11Make("set-b", "foo.com"), c11Make("set-c", "foo.com")}
+	names := []string{"set-a", "set-b", "set-c"}
+	vhook.SleepHook = func(d time.Duration) { time.Sleep(d / 100) }
+	defer func() { vhook.SleepHook = nil }()
+	var hist [][]int
+	var rec func(cur []int)
+	rec = func(cur []int) {
+		if len(cur) > 1 {
+			hist = append(hist, append([]int{}, cur...))
+		}
+		if len(cur) == 4 {
+			return
+		}
+		for i := range sets {
+			rec(append(cur, i))
+		}
+	}
+	rec(nil)
+	nBad := 0
+	for _, viaLink := range []bool{true, false} {
+		for _, h := range hist {
+			proot, _ := os.MkdirTemp("", "c11ps")
+			for v, c := range sets {
+				os.MkdirAll(filepath.Join(proot, fmt.Sprint("v", v)), 0o700)
+				os.WriteFile(filepath.Join(proot, fmt.Sprint("v", v), "a.pem"), c.pem, 0o600)
+			}
+			os.MkdirAll(filepath.Join(proot, "certs"), 0o700)
+			set := func(v int) {
+				if !viaLink {
+					tmp := filepath.Join(proot, "certs", ".a.tmp")
+					os.WriteFile(tmp, sets[v].pem, 0o600)
+					os.Rename(tmp, filepath.Join(proot, "certs", "a.pem"))
+					return
+				}
+				tmp := filepath.Join(proot, "data.tmp")
+				os.Remove(tmp)
+				if err := os.Symlink(fmt.Sprint("v", v), tmp); err != nil {
+					panic("VERIF-INFRA: " + err.Error())
+				}
+				if err := os.Rename(tmp, filepath.Join(proot, "data")); err != nil {
+					panic("VERIF-INFRA: " + err.Error())
+				}
+			}
+			set(h[0])
+			if viaLink {
+				os.Symlink(filepath.Join("..", "data", "a.pem"), filepath.Join(proot, "certs", "a.pem"))
+			}
+			ch := PathSource{CertPath: filepath.Join(proot, "certs"), Refresh: time.Second}.Certificates()
+			next := func() string {
+				select {
+				case certs := <-ch:
+					if len(certs) == 0 {
+						return "empty"
+					}
+					return c11Leaf(&certs[0])
+				case <-time.After(20 * time.Second):
+					return "<nothing published>"
+				}
+			}
+			L.Case()
+			d := map[string]interface{}{"history": h, "switched_by_re-pointing_a_directory_link": viaLink}
+			bad := false
+			changes := false
+			prev := -1
+			for step, v := range h {
+				if step > 0 {
+					set(v)
+				}
+				if v == prev {
+					continue
+				}
+				changes = changes || step > 0
+				prev = v
+				if got := next(); got != names[v] {
+					bad = true
+					d["step"], d["directory_holds"], d["source_delivered"] = step, names[v], got
+					break
+				}
+			}
+			if changes {
+				L.NontrivialKey(fmt.Sprint(h, viaLink))
+			}
+			L.Outcome(fmt.Sprint(bad))
+			os.RemoveAll(proot) // the watcher of this history cannot be stopped; it goes on reading a directory that is gone
+			if bad {
+				L.Violation("new-set-in-the-directory-never-delivered", d)
+				if nBad++; nBad >= 3 {
+					L.Cap("stopped after three violating histories")
+					L.End(false)
+					return
+				}
+			}
+		}
 	}
 	L.End(true)
 }
